@@ -36,16 +36,18 @@ def rotl16 (x : UInt16) (k : UInt16) : UInt16 :=
 def ecb (bs : Nat) (f : Bytes → Bytes) (src : Bytes) : Bytes :=
   ((chunks bs src).map f).flatten
 
-/-- big-endian word `i` of a byte array read cyclically from byte position `pos`
-    (blowfish `getNextWord` / the inlined loop in `ExpandKey`); returns the word and the new position.
+/-- one step of the cyclic key reader: `b[j]`, then `j++; if j >= len(b) { j = 0 }` -/
+@[inline] def nextByte (key : Array UInt8) (j : Nat) : UInt8 × Nat :=
+  (key[j]!, if j + 1 ≥ key.size then 0 else j + 1)
+
+/-- blowfish `getNextWord` (and the inlined copy in `ExpandKey`): the next big-endian word of a byte
+    array read cyclically from byte position `pos`; returns the word and the new position.
     Caller guarantees `key.size > 0`. -/
-def nextWord (key : Array UInt8) (pos : Nat) : UInt32 × Nat := Id.run do
-  let mut w : UInt32 := 0
-  let mut j := pos
-  for _ in [0:4] do
-    w := (w <<< 8) ||| (key[j]!).toUInt32
-    j := j + 1
-    if j ≥ key.size then j := 0
-  return (w, j)
+def nextWord (key : Array UInt8) (pos : Nat) : UInt32 × Nat :=
+  let (b0, j) := nextByte key pos
+  let (b1, j) := nextByte key j
+  let (b2, j) := nextByte key j
+  let (b3, j) := nextByte key j
+  (((((b0.toUInt32 <<< 8) ||| b1.toUInt32) <<< 8 ||| b2.toUInt32) <<< 8) ||| b3.toUInt32, j)
 
 end XC.C12
